@@ -347,6 +347,10 @@ func fieldNameVal(t types.Type, i int) string { return fieldName(t, i) }
 func (ev *Eval) sliceBase(x ssa.Value, user ssa.Instruction) *Term {
 	if a, ok := x.(*ssa.Alloc); ok {
 		if arr, ok := types.Unalias(a.Type().(*types.Pointer).Elem()).Underlying().(*types.Array); ok {
+			if len(ev.index().byObj[a]) == 0 {
+				// never stored to by this function: a buffer filled through pointers/sub-slices by callees; keep its identity
+				return ev.Term(a)
+			}
 			return ev.arrayContents(a, arr.Len())
 		}
 	}
@@ -782,7 +786,7 @@ func (ev *Eval) Events() []Event {
 			if !ok {
 				continue
 			}
-			if _, isB := c.Common().Value.(*ssa.Builtin); isB {
+			if b, isB := c.Common().Value.(*ssa.Builtin); isB && b.Name() != "copy" {
 				continue
 			}
 			t := ev.Term(c)
